@@ -698,7 +698,8 @@ class Output(object):
 
         if self.public_key and not self.public_hash:
             self.public_hash = hash160(self.public_key)
-        elif self._address and (not self.public_hash or not self.script_type or not self.encoding):
+        # An address given together with a public key is examined as well: it decides script type and encoding
+        if self._address and (not self.public_hash or not self.script_type or not self.encoding):
             address_dict = deserialize_address(self._address, self.encoding, self.network.name)
             if address_dict['script_type'] and not script_type:
                 self.script_type = address_dict['script_type']
